@@ -51,7 +51,7 @@ struct Runner {
     std::cout << "st " << id << " " << Topo<PSET>::name() << " " << x.space_dimension() << " " << (x.reduced ? 1 : 0)
               << " " << x.sequence.size() << " " << (x.OK() ? 1 : 0);
     for (typename PS::Sequence::const_iterator i = x.sequence.begin(); i != x.sequence.end(); ++i) {
-      std::cout << " | "; print_poly(i->prep->pset);
+      std::cout << " | " << i->prep->pset.space_dimension() << " "; print_poly(i->prep->pset);
     }
     std::cout << "\n";
   }
